@@ -12,6 +12,7 @@ package dispatchcloud
 
 import (
 	"bufio"
+	"bytes"
 	"context"
 	"encoding/json"
 	"fmt"
@@ -19,6 +20,7 @@ import (
 	"io/ioutil"
 	"math/rand"
 	"os"
+	"os/exec"
 	"sort"
 	"strconv"
 	"strings"
@@ -752,6 +754,66 @@ func verifC14Case(line string) string {
 	return verifC14Run(p)
 }
 
+// Every scenario runs in a child process (this test binary re-executed with
+// -test.run TestVerifC14Child): the dispatcher under test can panic in one of its own goroutines
+// (notes/C14.md O1, O2), which would otherwise take the whole shard down. A crashed child yields
+// the result line "e2e-crash <panic message> @ <innermost frames>".
+func verifC14Child(line string) string {
+	res, err := ioutil.TempFile("", "verifc14res")
+	if err != nil {
+		return "driver-error " + err.Error()
+	}
+	res.Close()
+	defer os.Remove(res.Name())
+	cmd := exec.Command(os.Args[0], "-test.run", "^TestVerifC14Child$", "-test.timeout", "600s")
+	cmd.Env = append(os.Environ(), "VERIF_C14_CASE="+line, "VERIF_C14_RESULT="+res.Name())
+	var buf bytes.Buffer
+	cmd.Stdout = &buf
+	cmd.Stderr = &buf
+	runErr := cmd.Run()
+	out, _ := ioutil.ReadFile(res.Name())
+	if r := strings.TrimSpace(string(out)); r != "" {
+		return r
+	}
+	lines := strings.Split(buf.String(), "\n")
+	msg, frames := "", []string{}
+	for i, l := range lines {
+		if msg == "" && (strings.HasPrefix(l, "panic: ") || strings.HasPrefix(l, "fatal error: ")) {
+			msg = l
+			continue
+		}
+		if msg != "" && strings.HasPrefix(l, "goroutine ") && strings.HasSuffix(l, "[running]:") {
+			for _, fl := range lines[i+1:] {
+				if fl == "" || len(frames) >= 3 {
+					break
+				}
+				if !strings.HasPrefix(fl, "\t") && !strings.HasPrefix(fl, "panic(") {
+					if k := strings.LastIndex(fl, "("); k > 0 {
+						fl = fl[:k]
+					}
+					if k := strings.LastIndex(fl, "/"); k >= 0 {
+						fl = fl[k+1:]
+					}
+					frames = append(frames, fl)
+				}
+			}
+			break
+		}
+	}
+	if msg == "" {
+		msg = fmt.Sprintf("child failed without a panic message: %v", runErr)
+	}
+	return strings.Join(strings.Fields("e2e-crash "+msg+" @ "+strings.Join(frames, " < ")), " ")
+}
+
+func TestVerifC14Child(t *testing.T) {
+	line, resf := os.Getenv("VERIF_C14_CASE"), os.Getenv("VERIF_C14_RESULT")
+	if line == "" || resf == "" {
+		t.Skip("not a child run")
+	}
+	ioutil.WriteFile(resf, []byte(verifC14Case(line)+"\n"), 0644)
+}
+
 func TestVerifC14(t *testing.T) {
 	in, err := os.Open(os.Getenv("VERIF_CASES"))
 	if err != nil {
@@ -768,7 +830,12 @@ func TestVerifC14(t *testing.T) {
 	sc := bufio.NewScanner(in)
 	sc.Buffer(make([]byte, 1<<20), 1<<26)
 	for sc.Scan() {
-		fmt.Fprintln(w, verifC14Case(sc.Text()))
+		line := sc.Text()
+		if strings.HasPrefix(line, "e2e ") {
+			fmt.Fprintln(w, verifC14Child(line))
+		} else {
+			fmt.Fprintln(w, verifC14Case(line))
+		}
 		w.Flush()
 	}
 }
